@@ -198,7 +198,7 @@ theorem C14_prefix_rejects_scheme (p : Bytes) (h : validateURLPrefix p = true) :
 
 /-! ### soundness of an accepted prefix -/
 
-/-- FULL statement: for an accepted prefix `p` of a URL-typed attribute and string data `w`, the browser (WHATWG
+/-- FULL statement (PROVED, with no hypothesis, in Proofs/C14Sound2.lean: `C14_prefix_sound`): for an accepted prefix `p` of a URL-typed attribute and string data `w`, the browser (WHATWG
     attribute-value decoding of `p ++ html-escaped chain output`) sees the decoded prefix followed by exactly the
     chain output, the scheme is the one the prefix fixed and is not `javascript`, and when the decoded prefix is
     already in the query or fragment part the data is fully percent-encoded. -/
